@@ -2,6 +2,7 @@
    defects that were repaired in /repo (they now evaluate to the corrected behaviour). *)
 From Coq Require Import List NArith ZArith Bool.
 From V.C14 Require Import WireModel WireSpec BytesModel BytesSpec SerModel SerSpec.
+From V.C14 Require Import JsonModel JsonSpec.
 Import ListNotations.
 Open Scope N_scope.
 
@@ -88,4 +89,45 @@ Example ex_huge_count :           (* a:99999999999:{} used to exhaust memory *)
 Proof. vm_compute. reflexivity. Qed.
 Example ex_wrong_length :         (* s:5:"abc"; used to give "abc" *)
   unserialize [115;58;53;58;34;97;98;99;34;59] = PFail.
+Proof. vm_compute. reflexivity. Qed.
+
+(* ---------------------------------------------------------------------- (4) JSON *)
+Definition ib0 (_ : Z) : N := 0.
+(* 2^52 = 0x4330000000000000 as a double; ib maps the ints of the example to their doubles *)
+Definition ex_ib (z : Z) : N :=
+  if (z =? 1)%Z then 4607182418800017408 else if (z =? -2)%Z then 13835058055282163712 else 0.
+Definition ex_pval : pval :=
+  PMap [ ([97], PInt 1); ([98], PList [PStr [120; 34]; PNull; PBool true; PFloat 4609434218613702656]);
+         ([99], PMap [ ([100], PInt (-2)) ]); ([101], PMap []) ].
+Example ex_json_classes : enc_ok ex_pval = true /\ JsonSpec.spec_ok ex_pval = true /\ assoc_ok ex_ib ex_pval = true.
+Proof. vm_compute. repeat split. Qed.
+Example ex_json_default : json_decode false (json_encode ex_ib ex_pval) = Some ex_pval.
+Proof. vm_compute. reflexivity. Qed.
+Example ex_json_assoc : json_decode true (json_encode ex_ib ex_pval) = Some (view true ex_pval).
+Proof. vm_compute. reflexivity. Qed.
+Example ex_tokens : exact_tokens (JNum true 9007199254740992 4845873199050653696) = true
+                 /\ exact_tokens (JNum true 9007199254740993 4845873199050653696) = false.
+Proof. vm_compute. split; reflexivity. Qed.
+
+(* refuted clauses: witnesses (known findings with keys json:enc:... and json:dec:...) *)
+Example json_keyed_array_refuted :                      (* json_encode(json_decode('{"a":1}', true)) = [1] *)
+  json_encode ib0 (PArr [([97], PInt 1)]) = JArr [JNum true 1 0]
+  /\ spec_to_json ib0 (PArr [([97], PInt 1)]) = Some (JObj [([97], JNum true 1 0)]).
+Proof. split; reflexivity. Qed.
+Example json_integral_float_refuted :                   (* 1.0 is written 1 and comes back as int 1 *)
+  json_decode true (json_encode ib0 (PFloat 4607182418800017408)) = Some (PInt 1).
+Proof. vm_compute. reflexivity. Qed.
+Example json_toplevel_refuted :                         (* json_decode('[1]') = NULL, json_decode('null') = {} *)
+  decode_default (JArr [JNum true 1 4607182418800017408]) = None /\ decode_default JNull = Some (PMap []).
+Proof. split; reflexivity. Qed.
+Example json_bigint_refuted :                           (* 2^53+1 read through float64 *)
+  decode_assoc (JNum true 9007199254740993 4845873199050653696) = Some (PInt 9007199254740992).
+Proof. vm_compute. reflexivity. Qed.
+Example json_int_overflow_refuted :                     (* {"n":2^63}: whole decode fails; reference: a float *)
+  decode_default (JObj [([110], JNum true 9223372036854775808 4890909195324358656)]) = None
+  /\ spec_of_json false (JObj [([110], JNum true 9223372036854775808 4890909195324358656)])
+     = PMap [([110], PFloat 4890909195324358656)].
+Proof. split; vm_compute; reflexivity. Qed.
+Example json_empty_key_refuted :                        (* {"":7} in assoc mode is the list [7] *)
+  decode_assoc (JObj [([], JNum true 7 4619567317775286272)]) = Some (PList [PInt 7]).
 Proof. vm_compute. reflexivity. Qed.
